@@ -4,7 +4,12 @@
 // symgo) the bodies are placeholders: the engine intercepts every call by name.
 package verif
 
-import "context"
+import (
+	"context"
+	"time"
+
+	"github.com/lni/dragonboat/v4"
+)
 
 func Symbolic() bool                  { return true }
 func Bool() bool                      { return false }
@@ -35,3 +40,14 @@ func SameFunc(a, b interface{}) bool { return false }
 func NewContext(withDeadline bool) context.Context { return nil }
 func Cancel(ctx context.Context)                   {}
 func Expire(ctx context.Context)                   {}
+
+// NewNodeHost returns a NodeHost (engine: model M2; native: a real
+// single-node in-memory NodeHost). StartShard runs the given state machine
+// (IConcurrentStateMachine or IOnDiskStateMachine) as shard id; firstIndex is
+// the log index its first proposal gets in the engine (natively the real log decides).
+func NewNodeHost() *dragonboat.NodeHost                                            { return nil }
+func StartShard(nh *dragonboat.NodeHost, id uint64, firstIndex uint64, sm interface{}) {}
+func YieldAtStore(nh *dragonboat.NodeHost, on bool)                                {}
+
+// Instant returns an arbitrary instant (not tied to the clock).
+func Instant() time.Time { return time.Time{} }
